@@ -785,27 +785,13 @@ class RealFabricStart:
     ao.Thread = PoolThread
 
     def pq(name):
-      class PQ(_queue.PriorityQueue):
-        def put(self, item, block=True, timeout=None):
-          d.before(name, "put")
-          return _queue.PriorityQueue.put(self, item, block, timeout)
-
-        def get(self, block=True, timeout=None):
-          d.before(name, "get")
-          if d.free:
-            return _queue.PriorityQueue.get(self, block, timeout)
-          try:
-            return _queue.PriorityQueue.get(self, False)
-          except _queue.Empty:
-            raise R.Mismatch("queue %s: the schedule grants a get that would block" % name)
-
-        def task_done(self):
-          d.before(name, "task_done")
-          return _queue.PriorityQueue.task_done(self)
-      return PQ()
+      return R.make_pq(d, name)
     self.fab = fab = ao.ActiveFabricSource()
     fab.fifo_fabric_queue = pq("fifo_queue")
     fab.lifo_fabric_queue = pq("lifo_queue")
+    for q, n in zip((fab.fifo_fabric_queue, fab.lifo_fabric_queue), info.get("queued", (0, 0))):
+      for _ in range(n):      # publications nobody subscribed to, waiting since before the callers begin
+        _queue.PriorityQueue.put(q, ao.FabricEvent(ao.HsmEvent(signal="NOBODY_SUBSCRIBED"), priority=5))
     ev = R.make_event(d, "fabric_event", False)
     ao.FiberThreadEvent.instance = ev
     fab.fabric_task_event = ev
@@ -1118,24 +1104,7 @@ class RealFabricDelivery:
     self.info = info = sc.info
 
     def pq(name):
-      class PQ(_queue.PriorityQueue):
-        def put(self, item, block=True, timeout=None):
-          d.before(name, "put")
-          return _queue.PriorityQueue.put(self, item, block, timeout)
-
-        def get(self, block=True, timeout=None):
-          d.before(name, "get")
-          if d.free:
-            return _queue.PriorityQueue.get(self, block, timeout)
-          try:
-            return _queue.PriorityQueue.get(self, False)
-          except _queue.Empty:
-            raise R.Mismatch("queue %s: the schedule grants a get that would block" % name)
-
-        def task_done(self):
-          d.before(name, "task_done")
-          return _queue.PriorityQueue.task_done(self)
-      return PQ()
+      return R.make_pq(d, name)
 
     ListProxy, registry = R.registry_proxies(d)
     self.fab = fab = ao.ActiveFabricSource()
@@ -1273,24 +1242,7 @@ class RealAoPubsub:
     obj.activeobject_task_event = self.task
 
     def pq(name):
-      class PQ(_queue.PriorityQueue):
-        def put(self, item, block=True, timeout=None):
-          d.before(name, "put")
-          return _queue.PriorityQueue.put(self, item, block, timeout)
-
-        def get(self, block=True, timeout=None):
-          d.before(name, "get")
-          if d.free:
-            return _queue.PriorityQueue.get(self, block, timeout)
-          try:
-            return _queue.PriorityQueue.get(self, False)
-          except _queue.Empty:
-            raise R.Mismatch("queue %s: the schedule grants a get that would block" % name)
-
-        def task_done(self):
-          d.before(name, "task_done")
-          return _queue.PriorityQueue.task_done(self)
-      return PQ()
+      return R.make_pq(d, name)
 
     class ListProxy(list):
       def append(self, x):
